@@ -249,6 +249,8 @@ class Interp:
         self.call_stack_limit = 60
         self.site_events = []
         self.call_counts = {}
+        self._const_cache = {}
+        self._lin_tables = {}
         self.deadline = (time.time() + self.opts["max_seconds"]) if self.opts.get("max_seconds") else None
 
     # ----------------------------------------------------------------- locations
@@ -342,8 +344,12 @@ class Interp:
             if 0 <= c < len(elems):
                 return elems[c]
             return Top(None)
+        if elems is not None and isinstance(k, IntVal) and k.bits is not None and len(elems) in (2, 4, 8, 16, 32, 64, 128, 256) \
+                and k.hi < len(elems) and all(e is not None for e in k.bits):
+            r = self.affine_lookup(elems, k)
+            if r is not None:
+                return r
         if elems is not None and isinstance(k, IntVal):
-            # symbolic index into known elements: join / linear-table lookup handled by caller
             out = None
             for j in range(len(elems)):
                 if k.lo <= j <= k.hi:
@@ -356,6 +362,47 @@ class Interp:
         if summ is not None:
             return summ
         return Top(None, deps_of(v))
+
+    def affine_lookup(self, elems, k):
+        """T[k] for a constant table that is GF(2)-affine in the index bits: T[i] = T[0] ^ XOR_{b in i} D_b"""
+        key = id(elems)
+        info = self._lin_tables.get(key)
+        if info is None:
+            info = False
+            if all(isinstance(e, IntVal) and e.is_const() and not e.ty.signed for e in elems):
+                vals = [e.lo for e in elems]
+                n = len(vals)
+                nb = n.bit_length() - 1
+                t0 = vals[0]
+                d = [vals[1 << b] ^ t0 for b in range(nb)]
+                ok = True
+                for i in range(n):
+                    x = t0
+                    for b in range(nb):
+                        if (i >> b) & 1:
+                            x ^= d[b]
+                    if x != vals[i]:
+                        ok = False
+                        break
+                if ok:
+                    info = (t0, d, elems[0].ty, elems)
+            self._lin_tables[key] = info
+        if not info:
+            return None
+        t0, d, ty, _keep = info
+        bits = []
+        for j in range(ty.bits):
+            mask, c = 0, (t0 >> j) & 1
+            for b, db in enumerate(d):
+                if (db >> j) & 1:
+                    e = k.bits[b]
+                    mask ^= e[0]
+                    c ^= e[1]
+            bits.append((mask, c))
+        r = IntVal.from_bits(ty, tuple(bits))
+        r.deps = r.deps | k.deps
+        r.tags = frozenset([("affine_table", len(elems))])
+        return r
 
     def seq_elems(self, v):
         """(elems tuple|None, length int|IntVal|None, summary)"""
@@ -545,7 +592,13 @@ class Interp:
         if "move" in op:
             return self.read_place(st, fr, op["move"])
         if "const" in op:
-            v = self.const_val(op["const"])
+            c = op["const"]
+            v = self._const_cache.get(id(c))
+            if v is None:
+                v = self.const_val(c)
+                self._const_cache[id(c)] = v
+            elif isinstance(v, IntVal):
+                v = v.fresh()
             if isinstance(v, Opaque) and v.kind == "constref":
                 loc = st.new_heap(v.get("arr"))
                 return RefVal(loc, False)
@@ -1445,7 +1498,12 @@ class Interp:
                 if e[0] == 0:
                     self.goto(st, fr, b_true if e[1] else b_false)
                     return None
-                merged = self.try_mux(st, fr, e, b_true, b_false, base)
+                ctags = frozenset()
+                if d.cmp is not None:
+                    for x in d.cmp[1:]:
+                        if isinstance(x, IntVal):
+                            ctags |= frozenset(t for t in x.tags if isinstance(t, tuple) and t and t[0] == "rd")
+                merged = self.try_mux(st, fr, e, b_true, b_false, base, ctags)
                 if merged is not None:
                     return merged
             outs = []
@@ -1488,7 +1546,7 @@ class Interp:
             outs.append(s)
         return outs
 
-    def try_mux(self, st, fr, e, b_true, b_false, base):
+    def try_mux(self, st, fr, e, b_true, b_false, base, ctags=frozenset()):
         """explore both arms up to the immediate post-dominator and merge them with a mux on bit e"""
         cfg = cfg_of(fr.fn)
         ipd = cfg.ipdom().get(fr.block)
@@ -1517,6 +1575,7 @@ class Interp:
         if len(t) == 1 and len(f) == 1 and t[0].status == "run" and f[0].status == "run" \
                 and len(t[0].frames) == depth and len(f[0].frames) == depth \
                 and t[0].top().block == ipd and f[0].top().block == ipd:
+            self._mux_tags = ctags
             m = self.mux_states(st, e, t[0], f[0])
             if m is not None:
                 m.top().block = ipd
@@ -1593,12 +1652,12 @@ class Interp:
             if bits is not None and all(b is not None for b in bits) and not vt.ty.signed:
                 r = IntVal.from_bits(vt.ty, bits)
                 r.deps = r.deps | vt.deps | vf.deps | frozenset(mask_atoms(e[0]))
-                r.tags = vt.tags | vf.tags
+                r.tags = vt.tags | vf.tags | getattr(self, "_mux_tags", frozenset())
                 return r
             if lin is not None:
                 lo, hi = lin.range()
                 return IntVal(vt.ty, max(lo, min(vt.lo, vf.lo)), min(hi, max(vt.hi, vf.hi)), None, bits, lin,
-                              vt.deps | vf.deps | frozenset(mask_atoms(e[0])), tags=vt.tags | vf.tags)
+                              vt.deps | vf.deps | frozenset(mask_atoms(e[0])), tags=vt.tags | vf.tags | getattr(self, "_mux_tags", frozenset()))
             return _FAIL
         if isinstance(vt, TupleVal) and isinstance(vf, TupleVal) and len(vt.fields) == len(vf.fields):
             fs = [self.mux_val(e, x, y) for x, y in zip(vt.fields, vf.fields)]
@@ -1755,10 +1814,10 @@ class Interp:
                     alts.append((delta, rv))
             m.oblig = []
             ne = len(st0.events)
-            seen_ev = set(repr(e) for e in m.events[ne:])
+            seen_ev = set(id(e) for e in m.events[ne:])
             for o, _d, _r in g[1:]:
                 for e in o.events[ne:]:
-                    r = repr(e)
+                    r = id(e)
                     if r not in seen_ev:
                         seen_ev.add(r)
                         m.events.append(e)
